@@ -1,6 +1,7 @@
 """C01vm — VM-level theorem of C01: compile-correctness of the bytecode compiler (incl. optimizeTailRec and
 optimizeCodeOps) + backtracking frame VM for fragment F3 (closures, functions, parameters, recursion, object construction,
-destructuring `as`, computed index / slices, string interpolation; docs/C01vm.md).
+destructuring `as` / `reduce` / `foreach`, computed index / slices, string interpolation, error(msg), builtins written in jq as
+definitions in front of the program; docs/C01vm.md).
 Extra check contributing to C01 (and to C04 for the two optimisation passes)."""
 import json, os, re, sys
 import verif as V
@@ -37,8 +38,8 @@ def _prog_of(line):
 def run(tier, seed):
     c = V.Check(PROP, tier, seed, evidence_name="C01vm")
     c.assumptions += [
-        "natives (funcIndex2, funcSlice, opiter's enumeration of a value, error/length/tostring/tojson, the 8 binary "
-        "operators) are total "
+        "natives (funcIndex2, funcSlice, opiter's enumeration of a value, error/length/tostring/tojson, the format natives _tohtml _touri _tocsv _totsv "
+        "_tosh _tobase64, keys, type, error/1, the 8 binary operators) are total "
         "functions value -> value + error; the theorems quantify over all of them; the executable correspondence "
         "instantiates them for integers, ASCII strings, arrays, objects (coq/c01vm2/Natives.v)",
         "data/scope/fork stacks are persistent lists; popscope's `free := index > limit` is stated at list level with a "
@@ -59,8 +60,14 @@ def run(tier, seed):
         "error); compileObject's constant-folding test is modelled entry by entry (compiler.go tests flat positions)",
         "fragment restrictions of step 5 (not generated): the destructuring alternative ?// (its fork intercepts errors "
         "raised downstream of the whole expression: not expressible by the direct-style denotation), computed keys and "
-        "repeated names in patterns, patterns in reduce/foreach, {\"a\\(q)\"} without a value, formats other than "
-        "@text/@json, a function definition in front of a literal index",
+        "repeated names in patterns, {\"a\\(q)\"} without a value, the formats @urid / @base64d and unknown formats, "
+        "a function definition in front of a literal index",
+        "builtins written in jq: the harness transcribes the definitions of builtin.jq that lie inside the fragment "
+        "(map select not recurse/0,1,2 while until values nulls first/0,1 last isempty all any nth/1,2 limit skip "
+        "combinations to_entries arrays objects booleans numbers strings), checks per program that the transcription compiles to the same instruction list as the text of "
+        "builtin.jq's definitions, and judges the implementation's run of the program WITHOUT the definitions (builtins "
+        "compiled on demand from builtin.go) against den of the program WITH them (runb lines); range (native iterator), "
+        "paths (path), repeat (infinite) are not covered",
         "fragment restrictions (programs outside are not generated): a function body / an argument closure of a "
         "user-defined function sees no label of its context; a call of the enclosing parameterless function in the "
         "right side of //, a catch handler, the extract part of foreach or a label body (tail positions for the Go scan "
@@ -89,7 +96,7 @@ def run(tier, seed):
                 runs = cases + ".runs"
                 with open(cases) as f, open(runs, "w") as g:
                     for l in f:
-                        if l.startswith("(run "):
+                        if l.startswith("(run ") or l.startswith("(runb "):
                             g.write(l)
                 smism = V.compare_model(c, exe_m, runs, "c01vm", spec=True)
     # focused search: programs whose instruction list differs but whose sampled outputs agree are re-run inside
@@ -127,7 +134,7 @@ def run(tier, seed):
             c.broken_correspondence(kind, line, "model: " + verdict[:2000])
             reported += 1
     rule = ("programs of fragment F3 (closures, definitions, filter/$value parameters, recursion templates incl. tail "
-            "calls, object construction, destructuring as, computed index / slices, string interpolation): every AST with <= 3 nodes (4 in the thorough tier) over a small leaf set x all 12 "
+            "calls, object construction, destructuring as / reduce / foreach, computed index / slices, string interpolation, error(msg), calls of builtins written in jq): every AST with <= 3 nodes (4 in the thorough tier) over a small leaf set x all 12 "
             "inputs, a random sample of the next size, and random ASTs of 3..60 nodes x 4 inputs; per program one "
             "instruction-list comparison (implementation vs Compile.compile, exact) and per (program, input) a 3-way "
             "comparison implementation / VM model (raw and peepholed code) / den; distinct = distinct case lines")
@@ -148,7 +155,7 @@ def replay(path):
     p = os.path.join(V.BUILD, "cases", "c01vm.replay")
     with open(p, "w") as f:
         f.write(case + "\n")
-        if case.startswith("(run "):
+        if case.startswith("(run ") or case.startswith("(runb "):
             f.write("(spec " + case + ")\n")
     lines, outs = V.run_model(exe_m, p)
     for l, o in zip(lines, outs):
